@@ -146,7 +146,7 @@ func (t *Targets) runAll(w *hx.Writer, caseNo int, p Prog) {
 	if p.Fin.Kind == "create_batches" || p.Fin.Kind == "row" {
 		drySQL, realSQL, dryVals, realVals = "", "", []string{}, []string{}
 	}
-	if c19only || p.Fin.Kind == "create" || p.Fin.Kind == "create_slice" || p.Fin.Kind == "create_map" || p.Fin.Kind == "upsert" || p.Fin.Kind == "raw" || p.Fin.Kind == "exec" || p.Fin.Kind == "rows" {
+	if c19only || p.Fin.Kind == "create" || p.Fin.Kind == "create_slice" || p.Fin.Kind == "create_map" || p.Fin.Kind == "create_tmap" || p.Fin.Kind == "upsert" || IsRawKind(p.Fin.Kind) {
 		scopedText, scopedReal = "", "" // these finishers start from the base handle / raw SQL: the scope does not apply
 	}
 	rp, _ := json.Marshal(p)
